@@ -1,4 +1,5 @@
 import ElvisVerif.Model.Codec.BytesExtB
+import ElvisVerif.Generated.CodecB
 /-
 Model of `elvis_core::protocols::dns::dns_parsing`
 (sim/elvis-core/src/protocols/dns/dns_parsing.rs): `DnsMessage::from_bytes`,
@@ -7,13 +8,14 @@ Model of `elvis_core::protocols::dns::dns_parsing`
 `DnsServer::respond_to_query` (dns_server.rs) and the response handling of
 `DnsClient::get_host_by_name` (dns_client.rs).
 Names are terminated on the wire by the byte `b' '` (0x20); rdata is `rdlength` bytes.
-Core-only imports (linked into the native driver).
+Core-only imports (linked into the native driver) + the generated constants.
 -/
 namespace Elvis.CodecB.Dns
 open Elvis.CodecB
 
-/-- the name delimiter `b' '` used by `from_bytes` and both `build`s -/
-def delim : UInt8 := 0x20
+/-- the name delimiter `b' '` used by `from_bytes` and both `build`s: the literal as extracted
+    from the source on every check (the extractor fails unless all four sites use one literal) -/
+def delim : UInt8 := Elvis.Gen.CodecB.dnsDelim
 
 structure DnsHeader where
   id : Nat
